@@ -218,11 +218,11 @@ def run_recipe(ctx: Ctx, recipe: Dict[str, Any], cid: str) -> Case:
         if isinstance(t, str) and t.startswith("f:"):
             fvals.append(untok_float(t[2:]))
     for op in ops:
-        if op[0] in ("rt", "out", "validate", "set") and op[1].startswith("f:"):
+        if op[0] in ("rt", "out", "validate", "set", "avalidate", "aset") and op[1].startswith("f:"):
             fvals.append(untok_float(op[1][2:]))
         if op[0] == "spell" and op[2].startswith("f:"):
             fvals.append(untok_float(op[2][2:]))
-        if is_float and op[0] in ("in", "setupnp"):
+        if is_float and op[0] in ("in", "setupnp", "asetupnp"):
             fstrs.append(op[1])
         if is_float and op[0] == "spell":
             fstrs.append(op[3])
@@ -280,6 +280,9 @@ def run_recipe(ctx: Ctx, recipe: Dict[str, Any], cid: str) -> Case:
         factory = UpnpFactory(None, non_strict=not strict)  # type: ignore[arg-type]
         schema = factory._state_variable_create_schema(ti)  # pylint: disable=protected-access
         sv = UpnpStateVariable(StateVariableInfo(name="V", send_events=False, type_info=ti, xml=el), schema)
+        from async_upnp_client.client import UpnpAction
+        from async_upnp_client.const import ActionArgumentInfo
+        arg = UpnpAction.Argument(ActionArgumentInfo(name="X", direction="in", state_variable_name="V", xml=el), sv)
         lines.append("res ok")
     except Exception as e:  # noqa: BLE001
         lines.append("res " + exc(e))
@@ -345,6 +348,35 @@ def run_recipe(ctx: Ctx, recipe: Dict[str, Any], cid: str) -> Case:
             err = 1 if sv.value_unchecked is UpnpStateVariable.UPNP_VALUE_ERROR else 0
             lines.append(f"res {r} {tok_val(sv.value)} {err} {conv}")
             tags.add("setupnp:" + ("sentinel" if err else r))
+        elif kind == "avalidate":
+            v = untok_val(op[1])
+            lines.append(f"avalidate {op[1]}")
+            try:
+                arg.validate_value(v)
+                r = "ok"
+            except Exception as e:  # noqa: BLE001
+                r = exc(e)
+            lines.append("res " + r)
+            tags.add("avalidate:" + r)
+        elif kind == "aset":
+            v = untok_val(op[1])
+            lines.append(f"aset {op[1]}")
+            try:
+                arg.value = v
+                r = "ok"
+            except Exception as e:  # noqa: BLE001
+                r = exc(e)
+            lines.append(f"res {r} {tok_val(arg.value)}")
+            tags.add("aset:" + r)
+        elif kind == "asetupnp":
+            lines.append(f"asetupnp {tok_str(op[1])}")
+            try:
+                arg.upnp_value = op[1]
+                r = "ok"
+            except Exception as e:  # noqa: BLE001
+                r = exc(e)
+            lines.append(f"res {r} {tok_val(arg.value)}")
+            tags.add("asetupnp:" + r)
         elif kind == "getupnp":
             lines.append("getupnp")
             lines.append("res " + res_str(lambda: sv.upnp_value)[0])
@@ -679,6 +711,9 @@ def gen_recipe(rng, name: str, thorough: bool) -> Dict[str, Any]:
             ops.append(["setupnp", s])
         else:
             ops.append(["getupnp"])
+        # the ARGUMENT half of "state variable or argument": the same operation against an UpnpAction.Argument
+        if ops[-1][0] in ("set", "validate", "setupnp") and rng.random() < 0.5:
+            ops.append(["a" + ops[-1][0], ops[-1][1]])
     return {"type": name, "strict": strict, "decl": decl, "dval": dval, "ops": ops}
 
 
@@ -710,7 +745,8 @@ def corpus() -> List[Dict[str, Any]]:
                  ["setupnp", "2024-02-28T06:30:00-05:00"], ["setupnp", "2024-02-28T06:30:00"], ["getupnp"]]},
         {"type": "ui1", "strict": True, "decl": {"range": True, "min": "0", "max": "255", "allowed": None},
          "dval": {"min": "i:0", "max": "i:255", "allowed": None},
-         "ops": [["rt", "b:1"], ["rt", "b:0"], ["spell", "canon", "b:1", "1"], ["out", "none"], ["out", "s:" + tok_str("12")],
+         "ops": [["aset", "i:7"], ["aset", "i:256"], ["avalidate", "i:-1"], ["asetupnp", "101"], ["asetupnp", "300"], ["asetupnp", "x"],
+                 ["aset", "b:1"], ["rt", "b:1"], ["rt", "b:0"], ["spell", "canon", "b:1", "1"], ["out", "none"], ["out", "s:" + tok_str("12")],
                  ["set", "i:255"], ["set", "i:256"], ["set", "b:1"], ["getupnp"], ["setupnp", "300"], ["setupnp", "abc"], ["setupnp", "7"],
                  ["validate", "i:-1"], ["validate", "s:" + tok_str("1")], ["getupnp"]]},
         {"type": "string", "strict": False, "decl": {"range": False, "min": None, "max": None, "allowed": ["PLAY", "STOP"]},
